@@ -121,6 +121,28 @@ func (f *fixtures) honest(k, u int, net uint64) (*record, error) {
 	return &record{underlay: ub, overlay: append([]byte{}, ov.Bytes()...), sig: append([]byte{}, a.Signature...)}, nil
 }
 
+// checkNet concretises the network id a record is checked on (AddrRecord.tla CheckNet): another id of the universe,
+// or the signing id changed only in its upper 32 bits ("hi32") or in one bit ("b<k>").
+func checkNet(d map[string]interface{}) (uint64, error) {
+	base := netID[kit.Int(d, "vn")]
+	if kit.Str(d, "mut") != "net" {
+		return base, nil
+	}
+	how := kit.Str(d, "how")
+	switch {
+	case how == "other":
+		return base, nil
+	case how == "hi32":
+		return netID[kit.Int(d, "n")] ^ 0x8000000100000000, nil
+	default:
+		k, ok := pos(how)
+		if !ok || k > 63 {
+			return 0, fmt.Errorf("network id variant %q", how)
+		}
+		return netID[kit.Int(d, "n")] ^ (uint64(1) << uint(k)), nil
+	}
+}
+
 func pos(how string) (int, bool) {
 	if strings.HasPrefix(how, "b") && how != "blast" {
 		n, err := strconv.Atoi(how[1:])
@@ -312,7 +334,10 @@ func run(f *fixtures, sc kit.Scenario, out *kit.Out) error {
 			return err
 		}
 		mut := kit.Str(d, "mut")
-		vn := netID[kit.Int(d, "vn")]
+		vn, err := checkNet(d)
+		if err != nil {
+			return err
+		}
 		ev := kit.Ev{"op": path, "k": kit.Int(d, "k"), "u": kit.Int(d, "u"), "n": kit.Int(d, "n"), "vn": kit.Int(d, "vn"),
 			"mut": mut, "mk": kit.Int(d, "mk"), "mu": kit.Int(d, "mu"), "how": kit.Str(d, "how"),
 			"accepted": false, "same": false, "err": "", "panicked": false, "pmsg": ""}
